@@ -64,9 +64,20 @@ type Report struct {
 // WithAlias runs f (another property's rule set) keeping only the listed rules, reported under this property's ids.
 func (r *Report) WithAlias(alias map[string]string, f func()) {
 	expl, nd, as := r.Explanation, r.NotDecided, r.Assumptions
+	prev := r.alias
+	if prev != nil {
+		// nested: only what the outer alias also wants survives, under the outer name
+		composed := map[string]string{}
+		for k, v := range alias {
+			if o, ok := prev[v]; ok {
+				composed[k] = o
+			}
+		}
+		alias = composed
+	}
 	r.alias = alias
 	f()
-	r.alias = nil
+	r.alias = prev
 	r.Explanation, r.NotDecided, r.Assumptions = expl, nd, as
 }
 
